@@ -90,6 +90,12 @@ def acOp (op : String) (t : List String) : Option String :=
   | "spec_resp_frame" =>
     some (toHex (Spec.respFrame (kvNat t "ft").toUInt8 (kvNat t "proto").toUInt8
       (if kvGet t "style" = some "sum" then .sum else .crc) (kvHex t "payload")))
+  | "spec_status_payload" =>
+    let st : Spec.DevState := ⟨kvBool t "power", false, kvNat t "mode", kvNat t "temp", kvNat t "fan", kvNat t "swing",
+      kvBool t "eco", kvBool t "turbo", kvBool t "sleep", kvBool t "f", kvBool t "freeze", kvBool t "follow",
+      kvBool t "pur", kvNat t "hum", kvNat t "aux"⟩
+    some (toHex (Spec.statusPayload st (kvBool t "display") (kvBool t "filter") (kvNat t "indoor").toUInt8
+      (kvNat t "outdoor").toUInt8 (kvNat t "digits").toUInt8 (kvNat t "msgid").toUInt8))
   | "parse_temp" => some (optStr toString (parseTemp (kvNat t "data") (kvNat t "d") (kvBool t "f")))
   | _ => none
 
